@@ -32,14 +32,108 @@ def loops(body):
             res.append(shape)
     return res
 
+# ------------------------------------------------------------------ schema (C03): the IDL files are the oracle
+IDL = {"authf": "AuthF.tars", "configf": "ConfigF.tars", "endpointf": "EndpointF.tars", "logf": "LogF.tars",
+       "nodef": "NodeF.tars", "notifyf": "NotifyF.tars", "propertyf": "PropertyF.tars", "statf": "StatF.tars"}
+SCALAR = {"enum": "encInt32", "bool": "encBool", "byte": "encInt8", "short": "encInt16", "int": "encInt32", "long": "encInt64",
+          "unsigned byte": "encInt16", "unsigned short": "encInt32", "unsigned int": "encInt64",
+          "string": "encString"}
+
+def idl_structs(pkg):
+    """{struct: [(tag, required, type, name, default)]} parsed from the .tars file (comments stripped)"""
+    text = open("%s/tars/protocol/res/%s" % (REPO, IDL[pkg])).read()
+    text = re.sub(r'/\*.*?\*/', '', text, flags=re.S)
+    text = re.sub(r'//[^\n]*', '', text)
+    enums = set(re.findall(r'\benum\s+(\w+)', text))
+    out = {}
+    for m in re.finditer(r'\bstruct\s+(\w+)\s*\{(.*?)\}\s*;', text, re.S):
+        mem = []
+        for mm in re.finditer(r'(\d+)\s+(require|optional)\s+([^;=]+?)\s+(\w+)\s*(?:=\s*([^;]+?))?\s*;', m.group(2)):
+            ty = re.sub(r'\s+', ' ', mm.group(3).strip())
+            if ty in enums:
+                ty = "enum"
+            mem.append((int(mm.group(1)), mm.group(2) == "require", ty, mm.group(4), mm.group(5).strip() if mm.group(5) else None))
+        out[m.group(1)] = mem
+    return out
+
+def go_fields(src, ty):
+    """{idl name: (Go field, tag, required)} from the struct tags of the generated struct"""
+    m = re.search(r'^type %s struct \{\n(.*?)^\}' % ty, src, re.S | re.M)
+    res = {}
+    if not m:
+        return res
+    for l in m.group(1).split('\n'):
+        mm = re.match(r'\s*(\w+)\s+\S+\s+`.*tars:"(\w+),tag:(\d+),require:(true|false)"`', l)
+        if mm:
+            res[mm.group(2)] = (mm.group(1), int(mm.group(3)), mm.group(4) == "true")
+    return res
+
+def schema_contract(pkg, ty, mem, fields):
+    """WriteTo contract of a struct whose members are all scalars/strings: bytes == schema encoding"""
+    steps, reqs = [], ["st != nil", "validB(buf)"]
+    full = True
+    last = -1
+    for tag, req, ity, name, dflt in sorted(mem):
+        if name not in fields or fields[name][1] != tag or fields[name][2] != req:
+            raise SystemExit("%s.%s.%s: IDL and struct tags disagree" % (pkg, ty, name))
+        if tag <= last:
+            raise SystemExit("%s.%s: tags not ascending" % (pkg, ty))
+        last = tag
+        if ity not in SCALAR:
+            full = False
+            break
+        f = "st." + fields[name][0]
+        enc = "%s(%d, %s)" % (SCALAR[ity], tag, f)
+        if ity == "string":
+            reqs.append("len(%s) < 4294967296" % f)
+        if req or ity == "enum":
+            # an optional member of enum type is always written by the generator; that is a conformant encoding
+            # (a present member equal to its default decodes to the same value), so the schema accepts it
+            steps.append((None, enc))
+        else:
+            if dflt is None:
+                d = '""' if ity == "string" else ("false" if ity == "bool" else "0")
+            else:
+                d = dflt
+            steps.append(("%s != %s" % (f, d), enc))
+    if not steps:
+        return []
+    # the expected bytes, built member by member in the order of the schema: e<k> = bytes after member k
+    o = ["//@ func (*%s).WriteTo" % ty,
+         "//@   requires " + " && ".join(reqs),
+         "//@   let e0 = buf.buf.bytes"]
+    for k, (cond, enc) in enumerate(steps):
+        if cond is None:
+            o.append("//@   let e%d = e%d ++ %s" % (k + 1, k, enc))
+        else:
+            o.append("//@   let e%d = (%s ? e%d ++ %s : e%d)" % (k + 1, cond, k, enc, k))
+    o += ["//@   let pre = e%d" % len(steps),
+          "//@   opaque head encInt8 encInt16 encInt32 encInt64 encString encBool",
+          "//@   perreturn",
+          "//@   modifies buf.buf.bytes"]
+    if full:
+        o.append("//@   ensures [C03] err == nil && buf.buf.bytes == pre")
+    else:
+        return []  # structs with container members: not derived (requestf's two packets are written by hand)
+    o += ["//@   safety [C03]", "//"]
+    return o
+
 def gen(pkg):
     fn = "%s/tars/protocol/res/%s/%sF.go" % (REPO, pkg, pkg[:-1].capitalize())
     src = open(fn).read()
     o = ["//go:build verif", "",
-         "// Contracts for the generated bindings of this package (property C05), derived mechanically by",
-         "// /verif/tools/gencontracts.py from the generated source; checked by /verif/govc. Comments only.", "",
+         "// Contracts for the generated bindings of this package, derived mechanically by /verif/tools/gencontracts.py;",
+         "// checked by /verif/govc. Comments only. C05 (decoder totality): from the shape of the generated readers.",
+         "// C03 (schema encoding): from the IDL file of the package - for a struct whose members are all scalars or",
+         "// strings, WriteTo appends exactly the members in ascending tag order, each under its declared tag and wire",
+         "// type, required ones always, optional ones unless equal to their declared default.", "",
          "package " + pkg, ""]
+    idl = idl_structs(pkg)
+    done = set()
     for ty, name, body in methods(src):
+        if name == "WriteTo" and ty in idl and ty not in done:
+            done.add(ty)
+            o += schema_contract(pkg, ty, idl[ty], go_fields(src, ty))
         if name == "ResetDefault":
             o += ["//@ func (*%s).ResetDefault" % ty, "//@   requires st != nil", "//@   modifies *st", "//@   safety [C05]", "//"]
         elif name == "ReadFrom":
